@@ -34,7 +34,7 @@ struct Thr {
     PSig sigs[MAXSIG]; int nsigs;
     int spin; unsigned hints, ro_streak; int casfail_streak;
     pthread_t real, joiner; void* (*fn)(void*); void* arg;
-    int op, ord, opcount; uint64_t phase_points; long prio; uint64_t last_run;
+    int op, ord, opcount; uint64_t phase_points; long prio; uint64_t last_run; int client_ord;
 };
 struct Mtx { const void* key; Thr* owner; int count; };
 
@@ -52,7 +52,7 @@ static uint64_t* g_skeys; static long* g_svals; static size_t g_smask;
 static long g_prio_low; static uint64_t g_pct_change[8]; static int g_pct_n;
 static int g_pre1_state; static Thr* g_pre1_home; static Thr* g_pre1_guest; static int g_pre1_guest_ops; static uint64_t g_pre1_until;
 static bool g_stall_on; static uint64_t g_stall_until; static bool g_stall_done;
-static int g_fair_left; static int g_live_clients;
+static int g_fair_left; static int g_live_clients; static int g_next_client_ord;
 static struct { int id, parties, arrived; } g_bar[8];
 // event ring for diagnostics
 struct Ev { uint64_t step; int tid, kind; const void* addr; };
@@ -131,22 +131,23 @@ void drain_self() { if (self) self->nsb = 0; }
 
 // ---------------------------------------------------------------- scheduling
 static bool sig_due(Thr* t) { if (!g_any_handler || t->in_handler) return false; for (int i = 0; i < t->nsigs; i++) if (t->sigs[i].due <= ST.steps) return true; return false; }
-static bool frozen(Thr* t) { return g_stall_on && t->id == P.stall_victim; }
+static bool frozen(Thr* t) { return g_stall_on && t->client_ord == P.stall_victim; }
 static bool can_run(Thr* t) { return t->st == RUNNABLE || (t->st != FINISHED && (t->in_handler || sig_due(t))); }
 
-static void run_signals() {
-    Thr* s = self;
+static bool run_signals() {
+    Thr* s = self; bool ran = false;
     while (s && !s->in_handler) {
         int k = -1; for (int i = 0; i < s->nsigs; i++) if (s->sigs[i].due <= ST.steps) { k = i; break; }
         if (k < 0) break;
         int sg = s->sigs[k].sig; memmove(&s->sigs[k], &s->sigs[k + 1], sizeof(PSig) * (s->nsigs - k - 1)); --s->nsigs;
         if (sg < 1 || sg > 64 || !g_has_handler[sg]) continue;
-        s->in_handler = true; ++ST.signals; s->nsb = 0;   // interrupt delivery serialises
+        s->in_handler = true; ran = true; ++ST.signals; s->nsb = 0;   // interrupt delivery serialises
         siginfo_t si; memset(&si, 0, sizeof si); si.si_signo = sg;
         struct sigaction& sa = g_handlers[sg];
         if (sa.sa_flags & SA_SIGINFO) sa.sa_sigaction(sg, &si, nullptr); else sa.sa_handler(sg);
         s->in_handler = false;
     }
+    return ran;
 }
 
 static void switch_to(Thr* t) {
@@ -157,13 +158,15 @@ static void switch_to(Thr* t) {
 
 // wake the earliest deadline / make pending signals due / release a frozen victim. false = deadlock
 static bool unblock_something() {
+    // A frozen STALL victim is runnable: release it first.  (The frozen state exists only in record mode; every other
+    // action below is a deterministic function of the simulator state and therefore identical in replay.)
+    if (g_stall_on) { g_stall_on = false; g_stall_done = true; return true; }
     Thr* best = nullptr;
     for (int i = 0; i < g_nthr; i++) { Thr* x = &g_pool[i]; if ((x->st == SLEEPING || x->st == BLK_COND) && x->has_deadline && (!best || x->deadline < best->deadline)) best = x; }
     if (best) { if (best->deadline > g_now) g_now = best->deadline; best->timed_out = true; best->st = RUNNABLE; ++ST.timeouts; return true; }
     bool any = false;
-    if (g_any_handler) for (int i = 0; i < g_nthr; i++) { Thr* x = &g_pool[i]; if (x->st != FINISHED && x->nsigs && !x->in_handler) { for (int j = 0; j < x->nsigs; j++) x->sigs[j].due = 0; any = true; } }
+    if (g_any_handler) for (int i = 0; i < g_nthr; i++) { Thr* x = &g_pool[i]; if (x->st != FINISHED && x->nsigs && !x->in_handler) { for (int j = 0; j < x->nsigs; j++) if (x->sigs[j].due > ST.steps) { x->sigs[j].due = 0; any = true; } } }
     if (any) return true;
-    if (g_stall_on) { g_stall_on = false; g_stall_done = true; return true; }
     return false;
 }
 
@@ -202,7 +205,7 @@ static Thr* strategy_pick(Thr* me, bool self_ok, bool must_other, Thr** c, int n
         Thr* b = me; for (int i = 0; i < n; i++) if (c[i]->prio > b->prio) b = c[i];
         return b; }
     case S_PRE1:
-        if (g_pre1_state == 0 && me->id == P.pre1_victim && me->opcount - 1 == P.pre1_op && me->ord >= P.pre1_ord && me->op >= 0) {
+        if (g_pre1_state == 0 && me->client_ord == P.pre1_victim && me->opcount - 1 == P.pre1_op && me->ord >= P.pre1_ord && me->op >= 0) {
             g_pre1_state = 1; g_pre1_home = me; g_pre1_guest = c[rnd() % n]; g_pre1_guest_ops = g_pre1_guest->opcount; g_pre1_until = ST.steps + (uint64_t)P.pre1_m;
             return g_pre1_guest;
         }
@@ -227,16 +230,21 @@ static Thr* choose_next(Thr* me, bool self_ok, bool must_other, int ctid, int co
         else if (ns > 0) pick = least_recent(cs, ns);
         else pick = self_ok ? me : nullptr;
         if (pick && pick != me) log_dec(ctid, cop, cord, D_SWITCH, pick->id + 1);
+        else if (pick && must_other && (n > 0 || ns > 0 || g_stall_on)) log_dec(ctid, cop, cord, D_SWITCH, pick->id + 1);   // explicit "stay"
+        if (P.trace && pick != me) fprintf(stderr, "  >> rec t%d@%d.%d -> t%d\n", ctid, cop, cord, pick ? pick->id : -1);
         return pick;
     }
     long v = 0;
     if (script_get(ctid, cop, cord, D_SWITCH, &v) && v >= 1 && v <= g_nthr) {
         Thr* t = &g_pool[v - 1];
+        if (P.trace) fprintf(stderr, "  >> rep t%d@%d.%d -> t%ld\n", ctid, cop, cord, v - 1);
+        if (t == me && self_ok) { log_dec(ctid, cop, cord, D_SWITCH, v); return me; }
         if (t != me && t->started && can_run(t)) { log_dec(ctid, cop, cord, D_SWITCH, v); return t; }
+        if (P.trace) fprintf(stderr, "  !! scripted switch t%d@%d.%d -> t%ld not possible (st=%d started=%d handler=%d)\n", ctid, cop, cord, v - 1, (int)t->st, (int)t->started, (int)t->in_handler);
     }
     if (self_ok && !must_other) return me;
-    // forced switch without a usable script entry: deterministic default
-    if (n > 0) { Thr* b = c[0]; for (int i = 1; i < n; i++) if (c[i]->id < b->id) b = c[i]; return b; }
+    // forced switch without a usable script entry (minimised scripts): deterministic default
+    if (n > 0) return least_recent(c, n);
     if (self_ok && ns == 0) return me;
     if (ns > 0) return least_recent(cs, ns);
     return nullptr;
@@ -269,7 +277,7 @@ static void resched(bool must_other) {
         bool self_ok = s->st == RUNNABLE || s->in_handler;
         // STALL: begin / end of the frozen window
         if (g_record && P.strategy == S_STALL && !g_stall_done && !g_seq && !g_fair) {
-            if (!g_stall_on && s->id == P.stall_victim && s->is_client && s->phase_points >= (uint64_t)P.stall_at) { g_stall_on = true; g_stall_until = ST.steps + (uint64_t)P.stall_len; ++ST.f3_stall; }
+            if (!g_stall_on && s->client_ord == P.stall_victim && s->is_client && s->phase_points >= (uint64_t)P.stall_at) { g_stall_on = true; g_stall_until = ST.steps + (uint64_t)P.stall_len; ++ST.f3_stall; }
             if (g_stall_on && ST.steps >= g_stall_until) { g_stall_on = false; g_stall_done = true; }
         }
         Thr* t = choose_next(s, self_ok, must_other, s->id, s->op, s->ord);
@@ -300,7 +308,7 @@ void point(int kind, const void* addr) {
     if (kind == K_LOAD_P || kind == K_FENCE_P || kind == K_LOAD || kind == K_FENCE || kind == K_RMW) { if (++s->ro_streak % 128 == 0) ++s->spin; }
     inject_wakeups(s);
     s->in_sched = false;
-    run_signals();
+    if (run_signals()) ++s->ord;   // the handler's own points used coordinates; the outer decision needs a fresh one
     s->in_sched = true;
     resched(false);
     s->in_sched = false;
@@ -365,9 +373,9 @@ void barrier(int id, int parties) {
 }
 void yield_hint() { Thr* s = self; if (!g_active || !s) return; ++s->spin; point(K_YIELD); }
 void note_progress() { progress_by(self); }
-void mark_client(bool on) {
+void mark_client(bool on, int ord) {
     Thr* s = self; if (!s) return;
-    if (on && !s->is_client) { s->is_client = true; s->phase_points = 0; ++g_live_clients; if (g_live_clients > ST.max_concurrent) ST.max_concurrent = g_live_clients; }
+    if (on && !s->is_client) { s->is_client = true; s->phase_points = 0; s->client_ord = ord >= 0 ? ord : g_next_client_ord++; ++g_live_clients; if (g_live_clients > ST.max_concurrent) ST.max_concurrent = g_live_clients; }
     if (!on && s->is_client) { s->is_client = false; --g_live_clients; }
 }
 
@@ -375,7 +383,7 @@ static void thr_init(Thr* t, int id) {
     t->id = id; t->go.store(0); t->exiting.store(0); t->st = RUNNABLE; t->obj = nullptr; t->deadline = 0;
     t->has_deadline = t->timed_out = t->in_handler = t->in_sched = t->is_client = t->exit_flag = false; t->started = true;
     t->nsb = 0; t->nsigs = 0; t->spin = 0; t->hints = 0; t->ro_streak = 0; t->casfail_streak = 0;
-    t->fn = nullptr; t->arg = nullptr; t->op = -1; t->ord = 0; t->opcount = 0; t->phase_points = 0; t->last_run = 0;
+    t->fn = nullptr; t->arg = nullptr; t->op = -1; t->ord = 0; t->opcount = 0; t->phase_points = 0; t->last_run = 0; t->client_ord = -1;
     t->prio = g_record ? (long)(rnd() % 1000000) + 1000 : 0;
 }
 
@@ -395,7 +403,7 @@ void begin(const Params& p) {
     memset(g_mtx, 0, sizeof g_mtx); memset(g_has_handler, 0, sizeof g_has_handler); g_any_handler = false; memset(g_bar, 0, sizeof g_bar);
     g_prio_low = 999; g_pct_n = 0;
     if (p.strategy == S_PCT) { g_pct_n = p.pct_depth - 1; if (g_pct_n > 8) g_pct_n = 8; if (g_pct_n < 0) g_pct_n = 0; for (int i = 0; i < g_pct_n; i++) g_pct_change[i] = 1 + rnd() % (uint64_t)(p.expected_steps > 0 ? p.expected_steps : 1); }
-    g_pre1_state = 0; g_pre1_home = g_pre1_guest = nullptr; g_stall_on = false; g_stall_done = false; g_live_clients = 0;
+    g_pre1_state = 0; g_pre1_home = g_pre1_guest = nullptr; g_stall_on = false; g_stall_done = false; g_live_clients = 0; g_next_client_ord = 0;
     g_nthr = 1; Thr* t = &g_pool[0]; thr_init(t, 0); t->real = real_self();
     self = t; g_cur = t; t_sim = true;
     arena_begin_run(p.use_arena, p.arena_delay);
